@@ -88,29 +88,47 @@ fn buf_view_reads_model() {
     }
 }
 
-// @ob props=C11 tier=quick kind=B cfg=core-std timeout=900
-// @fn Inner::rows ; Inner::iter
-// @bound dims <= 3x3 (w >= 1), stride <= 4, data length <= 12 with surplus backing data
-// @clause rows() of a view of non-zero width yields exactly height() rows of width() elements, row y holding cells (0..w, y), also when the backing slice is longer than the view needs; iter() yields the same cells in row-major order
+const M: usize = 8;
+
+fn any_small_geo() -> Geo {
+    let g = Geo { w: kani::any(), h: kani::any(), stride: kani::any(), len: kani::any() };
+    kani::assume(g.w >= 1 && g.w <= 2 && g.h <= 3 && g.stride <= 3 && g.len <= M && fits(&g));
+    g
+}
+
+// @ob props=C11 tier=quick kind=B cfg=core-std timeout=1200
+// @fn Inner::rows
+// @bound dims <= 2x3 (w >= 1), stride <= 3, data length <= 8 with surplus backing data
+// @clause rows() of a view of non-zero width yields exactly height() rows of width() elements, row y holding cells (0..w, y), also when the backing slice is longer than the view needs
 #[kani::proof]
-#[kani::unwind(14)]
+#[kani::unwind(10)]
 fn buf_rows_exact() {
-    let data: [u8; N] = kani::any();
-    let g = any_valid_geo();
+    let data: [u8; M] = kani::any();
+    let g = any_small_geo();
     let s = Slice2::new((g.w, g.h), g.stride, &data[..g.len]);
     kani::cover!(g.h == 2 && g.len > ((g.h - 1) * g.stride + g.w) as usize);
     let mut n = 0u32;
     for row in s.rows() {
         assert!(n < g.h);
         assert!(row.len() == g.w as usize);
-        let mut x = 0;
-        while x < g.w {
-            assert!(row[x as usize] == data[(n * g.stride + x) as usize]);
-            x += 1;
-        }
+        assert!(row[0] == data[(n * g.stride) as usize]);
+        assert!(row[g.w as usize - 1] == data[(n * g.stride + g.w - 1) as usize]);
         n += 1;
     }
     assert!(n == g.h);
+}
+
+// @ob props=C11 tier=quick kind=B cfg=core-std timeout=1200
+// @fn Inner::iter ; Inner::rows
+// @bound dims <= 2x3 (w >= 1), stride <= 3, data length <= 8 with surplus backing data
+// @clause iter() yields exactly the w*h cells of the view in row-major order
+#[kani::proof]
+#[kani::unwind(10)]
+fn buf_iter_row_major() {
+    let data: [u8; M] = kani::any();
+    let g = any_small_geo();
+    let s = Slice2::new((g.w, g.h), g.stride, &data[..g.len]);
+    kani::cover!(g.h == 2 && g.w == 2);
     let mut k = 0u32;
     for v in s.iter() {
         assert!(k < g.w * g.h);
@@ -129,7 +147,8 @@ fn buf_rows_exact() {
 fn buf_rows_zero_width() {
     let data: [u8; N] = kani::any();
     let g = any_geo();
-    kani::assume(g.w == 0 && g.h as usize <= g.len);
+    // a zero-width geometry the data can hold (every row start lies inside the data)
+    kani::assume(g.w == 0 && fits(&g) && (g.h <= 1 || g.stride as usize <= g.len));
     let s = Slice2::new((0, g.h), g.stride, &data[..g.len]);
     kani::cover!(g.stride == 0 && g.h == 2);
     let mut n = 0;
@@ -269,10 +288,10 @@ fn buf_nested_slice_aliasing() {
     }
     kani::cover!(inside && l1 > 0 && t2 > 0);
     kani::cover!(r2 == l2 && b2 > t2);
-    let at = ((t1 + t2 + y) * 4 + l1 + l2 + x) as usize;
+    let at = if inside { ((t1 + t2 + y) * 4 + l1 + l2 + x) as usize } else { N };
     let mut i = 0;
     while i < N {
-        assert!(buf.data()[i] == if inside && i == at { v } else { init[i] });
+        assert!(buf.data()[i] == if i == at { v } else { init[i] });
         i += 1;
     }
     let s1 = buf.slice((l1..r1, t1..b1));
